@@ -23,6 +23,8 @@ partial def parseGoType : Sexp → Option GoType
   | .atom "iface" => some .iface
   | .atom "chan" => some .chan
   | .atom "func" => some .func
+  | .atom "unsafeptr" => some .unsafeptr
+  | .list [.atom "ref", n] => do pure (.ref (← asStr n))
   | .list [.atom "int", w] => do
     let w ← asNat w
     pure (.int (if w == 0 then 64 else w))
